@@ -294,6 +294,77 @@ theorem ring_shift (order : Nat) (ho : order = 1 ∨ order = 2) (h : Rat) (xs : 
   · rw [ring_centred_d2 _ _ _ (by rw [hrl]; exact hj), ring_centred_d2 _ _ _ hm]
     rw [hrl, ringVal_roll _ _ _ hne, ringVal_roll _ _ _ hne, ringVal_roll _ _ _ hne, k1, k2, k3]
 
+/-! ## masked rings: where the seam is not crossed the ring is an open line -/
+
+/-- Periodic direction, masked ring whose FIRST cell is invalid: no run crosses the seam and the
+result is exactly that of the open line. -/
+theorem ring_open_if_first_invalid (order : Nat) (h : Rat) (y : Rat) (rest : List (Rat × Bool)) :
+    diffRing order h ((y, false) :: rest) = diffLine order h ((y, false) :: rest) := by
+  unfold diffRing
+  have hd : diffRun order h [] = [] := diffRun_nil order h
+  have hlen : (diffLine order h ((y, false) :: rest)).length = rest.length + 1 := by
+    rw [diffLine_length]; simp
+  -- the padded line: last :: (y,false) :: rest ++ [(y,false)]
+  have hw : wrap1 ((y, false) :: rest) = ((y, false) :: rest).getLast (by simp) :: ((y, false) :: rest) ++ [(y, false)] :=
+    wrap1_eq rest (y, false)
+  rw [hw]
+  obtain ⟨lx, lv⟩ := ((y, false) :: rest).getLast (by simp)
+  have hopen : diffLine order h ((y, false) :: rest) = 0 :: sdcGo (diffRun order h) rest [] := by
+    unfold diffLine sdc; simp [sdcGo, hd]
+  rw [hopen]
+  unfold diffLine sdc
+  simp only [List.cons_append, List.length_cons]
+  cases lv
+  · -- padding cell invalid
+    simp only [sdcGo, List.reverse_nil, hd, List.nil_append, List.drop_succ_cons, List.drop_zero]
+    rw [sdcGo_append_invalid _ hd]
+    have : (sdcGo (diffRun order h) rest []).length = rest.length := by
+      rw [sdcGo_length _ (diffRun_length order h)]; simp
+    rw [show rest.length + 1 = (0 :: sdcGo (diffRun order h) rest []).length by simp [this]]
+    rw [← List.cons_append, List.take_left']
+    rfl
+  · rw [sdcGo_cons_valid_then_invalid _ (by intro x; simp [diffRun_length])]
+    rw [sdcGo_append_invalid _ hd]
+    have : (sdcGo (diffRun order h) rest []).length = rest.length := by
+      rw [sdcGo_length _ (diffRun_length order h)]; simp
+    rw [show rest.length + 1 = (0 :: sdcGo (diffRun order h) rest []).length by simp [this]]
+    rw [← List.cons_append, List.take_left']
+    rfl
+
+
+/-- … and likewise when the LAST cell is invalid. -/
+theorem ring_open_if_last_invalid (order : Nat) (h : Rat) (y : Rat) (rest : List (Rat × Bool)) :
+    diffRing order h (rest ++ [(y, false)]) = diffLine order h (rest ++ [(y, false)]) := by
+  unfold diffRing
+  have hd : diffRun order h [] = [] := diffRun_nil order h
+  have hne : rest ++ [(y, false)] ≠ [] := by simp
+  obtain ⟨c0, cs, hcs⟩ : ∃ c0 cs, rest ++ [(y, false)] = c0 :: cs := by
+    cases hr : rest ++ [(y, false)] with
+    | nil => exact absurd hr hne
+    | cons c0 cs => exact ⟨c0, cs, rfl⟩
+  have hh : (rest ++ [(y, false)]).head? = some c0 := by rw [hcs]; rfl
+  have hl0 : (rest ++ [(y, false)]).getLast? = some (y, false) := by simp
+  have hw : wrap1 (rest ++ [(y, false)]) = (y, false) :: (rest ++ [(y, false)]) ++ [c0] := by
+    unfold wrap1
+    rw [hh, hl0]
+  rw [hw]
+  have hopen : diffLine order h (rest ++ [(y, false)]) = sdcGo (diffRun order h) rest [] ++ [0] := by
+    unfold diffLine sdc; rw [sdcGo_append_invalid _ hd]
+  rw [hopen]
+  unfold diffLine sdc
+  simp only [List.cons_append, sdcGo, List.reverse_nil, hd, List.nil_append, List.drop_succ_cons, List.drop_zero,
+    List.append_assoc, List.singleton_append]
+  rw [sdcGo_split_invalid]
+  have hl : (sdcGo (diffRun order h) rest []).length = rest.length := by
+    rw [sdcGo_length _ (diffRun_length order h)]; simp
+  have : (rest ++ [(y, false)]).length = (sdcGo (diffRun order h) rest [] ++ [0]).length := by simp [hl]
+  rw [this]
+  have e : sdcGo (diffRun order h) rest [] ++ 0 :: sdcGo (diffRun order h) [c0] []
+      = (sdcGo (diffRun order h) rest [] ++ [0]) ++ sdcGo (diffRun order h) [c0] [] := by simp
+  rw [e, List.take_left']
+  rfl
+
+
 /-! ## field level: per component, per grid line, metadata -/
 
 
